@@ -534,6 +534,29 @@ pub fn run(cfg: &Cfg, rep: &mut Report) {
             }
         }
     }
+    for c in [0i64, 16] {
+        for n in [0i64, 31, 32, 64, 95, 127] {
+            for v in [0i64, 16383, 16384] {
+                let full = json!({"channel":c,"msb_controller_number":n,"value":v});
+                for key in ["channel", "msb_controller_number", "value"] {
+                    for variant in 0..2 {
+                        let mut m = full.as_object().unwrap().clone();
+                        if variant == 0 {
+                            m.remove(key);
+                        } else {
+                            m.insert(key.to_string(), Value::Null);
+                        }
+                        let input = Value::Object(m);
+                        rep.evaluations += 1;
+                        if let Ok(Some(x)) = from::<ControlChange14BitMessage>("Deserialize for ControlChange14BitMessage", &input) {
+                            cc14_accepted += 1;
+                            judge_cc14(&input, x, rep);
+                        }
+                    }
+                }
+            }
+        }
+    }
     rep.count("cc14_inputs_accepted", cc14_accepted);
     for c in 0u8..16 {
         for n in 0u8..32 {
@@ -583,6 +606,41 @@ pub fn run(cfg: &Cfg, rep: &mut Report) {
                                             format!("natural representation {} was rejected", input),
                                             json!({"kind":"serde","type":"ParameterNumberMessage","input":input}),
                                         );
+                                    }
+                                }
+                            }
+                        }
+                    }
+                }
+            }
+        }
+    }
+    // the same product with one member absent or null (optional-field slips in mirror structs)
+    for c in [0i64, 16] {
+        for n in [5i64, 16384] {
+            for v in [0i64, 127, 200, 16383, 16384] {
+                for reg in [false, true] {
+                    for b14 in [false, true] {
+                        for dt in ["DataEntry", "DataIncrement", "DataDecrement"] {
+                            let full = json!({"channel":c,"number":n,"value":v,"is_registered":reg,"is_14_bit":b14,"data_type":dt});
+                            for key in ["channel", "number", "value", "is_registered", "is_14_bit", "data_type"] {
+                                for variant in 0..2 {
+                                    let mut m = full.as_object().unwrap().clone();
+                                    if variant == 0 {
+                                        m.remove(key);
+                                    } else {
+                                        m.insert(key.to_string(), Value::Null);
+                                    }
+                                    let input = Value::Object(m);
+                                    rep.evaluations += 1;
+                                    match from::<ParameterNumberMessage>("Deserialize for ParameterNumberMessage", &input) {
+                                        Err(msg) => crate::viol!(rep, "C19:panic:ParameterNumberMessage", format!("{}: {}", input, msg), json!({"kind":"serde","type":"ParameterNumberMessage","input":input})),
+                                        Ok(Some(x)) => {
+                                            pn_accepted += 1;
+                                            rep.count("pn_inputs_with_absent_or_null_member_accepted", 1);
+                                            judge_pn(&input, x, rep);
+                                        }
+                                        Ok(None) => {}
                                     }
                                 }
                             }
